@@ -297,6 +297,12 @@ func Describe(e *core.Entry) string {
 			x = "+x"
 		}
 		d := string(e.Digest)
+		for _, b := range e.Digest {
+			if b < 0x20 || b > 0x7e {
+				d = fmt.Sprintf("%x", e.Digest)
+				break
+			}
+		}
 		if len(d) > 10 {
 			d = d[:10]
 		}
